@@ -54,5 +54,6 @@ def run():
     ck.cov['rule'] = ('model: every (length, key, outlen, chunk size) transition of the streaming machine; '
                       'trace: seeded calls, lengths around 128-byte block edges, all outlen 1..64, key lengths '
                       '0/1/31/32/63/64/random, invalid parameters; a case is one recorded call or session')
+    ck.cov['rule'] += '; plus: sessions on used state objects, invalid lengths k*2^32+n, a (2^32+k)-byte message one-shot / streamed / committed'
     ck.assumptions += ['Bitwise/SequencesExt Java overrides of the CommunityModules', 'messages < 2^30 bytes (counter carry is covered in the model with TMod=8 only)']
     return ck.finish()
